@@ -200,6 +200,18 @@ def run_kani_group(prop, grp, tier, obligations, undecided, failures, checker_cm
                 failures.append({"prop": prop, "group": grp, "harness": h, "failed": vio,
                                  "kani": {k: r[k] for k in ("status", "checks", "failed", "time_s")},
                                  "ws": None})
+        # thorough tier: the same harnesses again with a second SAT back end; the verdicts must agree
+        if tier == "thorough" and res and not grp.get("solver") and not os.environ.get("VERIF_NO_MUTANTS") \
+                and all(r["status"] == "SUCCESSFUL" for r in res.values()):
+            res2, meta2, _raw2 = vlib.kani_run(
+                ws, crate, [h["name"] for h in hs], features=features, jobs=grp.get("jobs", 8), timeout=timeout,
+                harness_timeout=max(h.get("timeout", 300) for h in hs), solver="kissat", modpath=grp.get("modpath"), c_lib=grp.get("c_lib"))
+            checker_cmds.append(meta2["cmd"])
+            agree = {k: (res2.get(k) or {}).get("status") for k in res}
+            ev_extra.setdefault("second_solver", []).append({"solver": "kissat", "harnesses": agree, "wall_s": meta2["wall_s"]})
+            for k, st in agree.items():
+                if st == "FAILED":
+                    undecided.append({"obligation": k, "reason": "cadical discharges this harness but kissat reports a failure (solver disagreement)"})
         # counterexample + native replay for failing harnesses (needs the workspace still present)
         known = vlib.load_known_findings()
         for f in failures:
@@ -259,7 +271,7 @@ def run_native_group(prop, grp, tier, obligations, undecided, failures, checker_
 
 # --------------------------------------------------------------------------------------------
 def write_replay(prop, f):
-    d = os.path.join(vlib.VERIF, "replays", prop)
+    d = os.path.join(os.environ.get("VERIF_REPLAY_DIR", os.path.join(vlib.VERIF, "replays")), prop)
     os.makedirs(d, exist_ok=True)
     ob = f["new"][0]
     path = os.path.join(d, re.sub(r"[^A-Za-z0-9_.-]", "_", ob) + ".json")
@@ -291,6 +303,45 @@ def write_replay(prop, f):
     with open(path, "w") as fh:
         json.dump(doc, fh, indent=1)
     return path, doc
+
+
+def sanity_mutants(prop, undecided):
+    import glob
+    import shutil
+    import subprocess
+    import tempfile
+    out = []
+    for d in sorted(glob.glob(os.path.join(vlib.VERIF, "seeded", "*", ""))):
+        mp = os.path.join(d, "meta.json")
+        if not os.path.exists(mp) or not os.path.exists(os.path.join(d, "patch.diff")):
+            continue
+        meta = json.load(open(mp))
+        if prop not in (meta.get("checks_to_run") or [meta["property"]]):
+            continue
+        name = os.path.basename(d.rstrip("/"))
+        tmp = tempfile.mkdtemp(prefix=f"verif-{prop}-mutant-", dir=vlib.SCRATCH_ROOT)
+        try:
+            scratch = os.path.join(tmp, "repo")
+            vlib.run(["rsync", "-a", "--exclude", "target", "--exclude", ".git", vlib.REPO + "/", scratch + "/"])
+            rc, o, _, _ = vlib.run(["patch", "-p1", "-s", "-f", "--no-backup-if-mismatch", "-i", os.path.join(d, "patch.diff")], cwd=scratch, timeout=60)
+            if rc != 0:
+                out.append({"mutant": name, "applied": False, "note": "patch does not apply to the current tree (skipped)"})
+                continue
+            env = dict(os.environ, VERIF_REPO=scratch, VERIF_EVIDENCE_DIR=os.path.join(tmp, "evidence"),
+                       VERIF_REPLAY_DIR=os.path.join(tmp, "replays"), VERIF_NO_MUTANTS="1")
+            t0 = time.time()
+            p = subprocess.run([sys.executable, os.path.abspath(__file__), prop, "--tier", "quick"], env=env,
+                               stdout=subprocess.PIPE, stderr=subprocess.STDOUT, text=True, cwd=vlib.VERIF)
+            failed = re.findall(r"failed obligations: (.*)", p.stdout)
+            out.append({"mutant": name, "applied": True, "exit": p.returncode, "wall_s": round(time.time() - t0, 1),
+                        "failed_obligations": "; ".join(failed)[:300]})
+            log(f"  sanity mutant {name}: exit {p.returncode}")
+            if p.returncode == 0:
+                undecided.append({"obligation": "sanity-mutant:" + name,
+                                  "reason": "a kept seeded breaking change is NOT detected by this check any more: the contracts are too weak"})
+        finally:
+            shutil.rmtree(tmp, ignore_errors=True)
+    return out
 
 
 def decide(prop, tier, seed):
@@ -457,6 +508,12 @@ def decide(prop, tier, seed):
         suffix = "" if found_input else " no-failing-input-found"
         lines.append(f"VIOLATION property={prop} replay={path}{suffix}")
         lines.append(f"  failed obligations: {', '.join(f['new'])}")
+
+    # ---- thorough tier: sanity mutants -------------------------------------------------------
+    # every kept seeded change that names this property must still turn an obligation red when it is
+    # applied to a scratch copy of the current tree; a contract that survives it is too weak (exit 2)
+    if tier == "thorough" and not violations and not os.environ.get("VERIF_NO_MUTANTS"):
+        ev_extra["sanity_mutants"] = sanity_mutants(prop, undecided)
 
     n_disch = sum(1 for o in obligations if o["result"] == "discharged")
     if not obligations:
